@@ -18,6 +18,7 @@ package authenticators
 
 import (
 	"crypto/sha256"
+	"encoding/binary"
 	"encoding/hex"
 	"errors"
 	"io"
@@ -348,6 +349,9 @@ func (a *genericAuthenticator) getCacheTTL(sessionLifespan *SessionLifespan) tim
 func (a *genericAuthenticator) calculateCacheKey(ctx heimdall.Context, reference string) string {
 	digest := sha256.New()
 	digest.Write(a.e.Hash())
+	// the ttl can be overridden on the rule level. An entry cached with a longer ttl configured
+	// for one rule must not be used by another rule beyond the shorter ttl configured for it
+	digest.Write(binary.LittleEndian.AppendUint64(nil, uint64(a.ttl)))
 	digest.Write(stringx.ToBytes(reference))
 
 	// the values of the forwarded headers and cookies are part of the request sent to
